@@ -24,6 +24,7 @@ import (
 
 type hitListener struct {
 	mu   sync.Mutex
+	echo bool
 	hits int
 	got  []byte
 	l    net.Listener
@@ -50,7 +51,11 @@ func listenBackend(ip string, port int) *hitListener {
 					n, err := c.Read(buf)
 					h.mu.Lock()
 					h.got = append(h.got, buf[:n]...)
+					echo := h.echo
 					h.mu.Unlock()
+					if echo && n > 0 {
+						c.Write(buf[:n])
+					}
 					if err != nil {
 						c.Close()
 						return
@@ -62,7 +67,8 @@ func listenBackend(ip string, port int) *hitListener {
 	return h
 }
 
-func (h *hitListener) Hits() int { h.mu.Lock(); defer h.mu.Unlock(); return h.hits }
+func (h *hitListener) setEcho(e bool) { h.mu.Lock(); h.echo = e; h.mu.Unlock() }
+func (h *hitListener) Hits() int      { h.mu.Lock(); defer h.mu.Unlock(); return h.hits }
 
 // waitHits waits (bounded) until the listener saw n connections.
 func (h *hitListener) waitHits(n int) bool {
@@ -74,6 +80,10 @@ func (h *hitListener) waitHits(n int) bool {
 	}
 	return false
 }
+
+// bindEncKey is configured as Security.PAATokenEncryptionKey: a second 32-character secret of the
+// configuration that is NOT the signing key.
+const bindEncKey = "fedcba9876543210fedcba9876543210"
 
 type bindGW struct {
 	g     *GwProc
@@ -132,7 +142,7 @@ func startBind(o bindOpts) *bindGW {
 	sb.WriteString(o.Server)
 	fmt.Fprintf(&sb, "OpenId:\n ProviderUrl: %q\n ClientId: rdpgw\n ClientSecret: secret\n", b.idp.Issuer)
 	sb.WriteString("Caps:\n TokenAuth: true\n" + o.Caps)
-	sb.WriteString("Security:\n PAATokenSigningKey: " + c02Key + "\n QueryTokenSigningKey: " + c12QueryKey + "\n" + o.Security)
+	sb.WriteString("Security:\n PAATokenSigningKey: " + c02Key + "\n PAATokenEncryptionKey: " + bindEncKey + "\n QueryTokenSigningKey: " + c12QueryKey + "\n" + o.Security)
 	if o.Client != "" {
 		sb.WriteString("Client:\n" + o.Client)
 	}
@@ -266,6 +276,23 @@ func bindCore(rep *Report, prop string) {
 	}
 	okSeq := [][]byte{hs, tc, ta, tsgu.ChannelCreate(tip, bp)}
 	forged := jwsCompact(`{"alg":"HS256","typ":"JWT"}`, mustJSON(cl), "HS256", []byte("ffffffffffffffffffffffffffffffff"))
+	underSigning := jwsCompact(`{"alg":"HS256","typ":"JWT"}`, mustJSON(cl), "HS256", []byte(c02Key))
+	underEncKey := jwsCompact(`{"alg":"HS256","typ":"JWT"}`, mustJSON(cl), "HS256", []byte(bindEncKey))
+	// the minted token: signed under the configured signing key, lives at most five minutes
+	if prop != "C02" {
+		// only C02 speaks about keys and lifetimes
+	} else if sg := strings.Split(tok, "."); len(sg) == 3 {
+		hb, _ := b64.DecodeString(sg[0])
+		pb, _ := b64.DecodeString(sg[1])
+		if jwsCompact(string(hb), string(pb), "HS256", []byte(c02Key)) != tok {
+			viol("minted-token-not-signed-under-the-configured-signing-key", "HMAC-SHA256 of the minted token's signing input under Security.PAATokenSigningKey differs from its signature")
+		}
+	} else {
+		viol("minted-token-is-not-a-compact-jws", fmt.Sprint(len(sg)))
+	}
+	if e, ok := cl["exp"].(float64); prop == "C02" && (!ok || time.Unix(int64(e), 0).After(time.Now().Add(301*time.Second))) {
+		viol("minted-token-lives-longer-than-five-minutes", fmt.Sprintf("exp=%v, now=%d (the IdP's access token lives 3600 s)", cl["exp"], time.Now().Unix()))
+	}
 	probes := []probe{
 		{"canonical", "", nil, okSeq, []uint32{0, 0, 0, 0}, tip},
 		{"channel-create-before-tunnel-create", "", nil, [][]byte{hs, tsgu.ChannelCreate(tip, bp)}, []uint32{0, 1}, ""},
@@ -273,6 +300,8 @@ func bindCore(rep *Report, prop string) {
 		{"channel-create-first", "", nil, [][]byte{tsgu.ChannelCreate(tip, bp)}, []uint32{1}, ""},
 		{"no-cookie", "", nil, [][]byte{hs, tsgu.TunnelCreate("", false)}, []uint32{0, tsgu.ECookieAuthDenied}, ""},
 		{"forged-cookie", "", nil, [][]byte{hs, tsgu.TunnelCreate(forged, true)}, []uint32{0, tsgu.ECookieAuthDenied}, ""},
+		{"claims-signed-under-configured-signing-key", "", nil, [][]byte{hs, tsgu.TunnelCreate(underSigning, true)}, []uint32{0, 0}, ""},
+		{"claims-signed-under-configured-encryption-key", "", nil, [][]byte{hs, tsgu.TunnelCreate(underEncKey, true)}, []uint32{0, tsgu.ECookieAuthDenied}, ""},
 		{"handshake-without-paa", "", nil, [][]byte{tsgu.Handshake(1, 0, 0, 0)}, []uint32{tsgu.ECapabilityMismatch}, ""},
 		{"other-listed-host-than-token", "", nil, [][]byte{hs, tc, ta, tsgu.ChannelCreate(other, bp)}, []uint32{0, 0, 0, tsgu.ERAPAccessDenied}, ""},
 		{"unlisted-host", "", nil, [][]byte{hs, tc, ta, tsgu.ChannelCreate("127.0.0.1", bp)}, []uint32{0, 0, 0, tsgu.ERAPAccessDenied}, ""},
@@ -282,6 +311,9 @@ func bindCore(rep *Report, prop string) {
 		{"forwarded-for-issuing-address-from-elsewhere", "127.0.0.2", []string{"X-Forwarded-For: 127.0.0.1, 10.1.1.1"}, okSeq, []uint32{0, 0, 0, 0}, tip},
 	}
 	for _, p := range probes {
+		if strings.HasPrefix(p.name, "claims-signed-under-configured") && prop != "C02" {
+			continue
+		}
 		rep.add("executions", 1)
 		before := map[string]int{}
 		for ip, h := range b.be {
@@ -636,4 +668,96 @@ func bindLeaks(rep *Report, prop string) {
 	if cr := b.g.Crashed(); cr != "" {
 		viol("panic", cr)
 	}
+}
+
+// bindOIDC: the OpenID callback on the real binary (C13): main()'s provider discovery, ID-token verifier
+// (audience, issuer, expiry, signature) and oauth2 configuration are not visible to the in-process checks,
+// which build their own.
+func bindOIDC(rep *Report, env *Env) int {
+	viol := func(kind, detail string) { rep.violate("C13/binary:"+kind, detail, map[string]any{"noreplay": true}) }
+	n := 0
+	for si, store := range []string{"cookie", "file"} {
+		if !env.mine(si) {
+			continue
+		}
+		b := startBind(bindOpts{Server: " SessionStore: " + store + "\n"})
+		b.idp.mu.Lock()
+		c13Script(b.idp)
+		b.idp.mu.Unlock()
+		stateOf := func(c *gwClient) string {
+			code, h, _ := c.get("/connect")
+			if code != 302 {
+				return ""
+			}
+			loc := h.Get("Location")
+			i := strings.Index(loc, "state=")
+			if i < 0 {
+				return ""
+			}
+			st := loc[i+6:]
+			if j := strings.IndexByte(st, '&'); j >= 0 {
+				st = st[:j]
+			}
+			return st
+		}
+		run := func(stateKind, code string, age time.Duration) {
+			n++
+			rep.add("executions", 1)
+			A, B := newGwClient(b.g), newGwClient(b.g)
+			var st string
+			switch stateKind {
+			case "own":
+				st = stateOf(A)
+			case "other":
+				stateOf(A)
+				st = stateOf(B)
+			case "never":
+				stateOf(A)
+				st = "00112233445566778899aabbccddeeff"
+			}
+			if st == "" {
+				viol("unauthenticated-connect-not-redirected-to-idp", store+" "+stateKind)
+				return
+			}
+			if age > 0 {
+				time.Sleep(age)
+			}
+			cbCode, _, body := A.get("/callback?state=" + st + "&code=" + code)
+			valid := stateKind != "never" && age == 0 && strings.HasPrefix(code, "ok:")
+			c2, _, file := A.get("/connect")
+			authed := c2 == 200 && strings.Contains(file, "gatewayaccesstoken:s:")
+			what := fmt.Sprintf("store=%s state=%s code=%s age=%v: callback %d, then /connect %d", store, stateKind, code, age, cbCode, c2)
+			rep.outcome(fmt.Sprintf("binary oidc store=%s state=%s code=%s authed=%v", store, stateKind, code, authed))
+			switch {
+			case cbCode == 0 || c2 == 0:
+				viol("request-not-answered", what+" "+body)
+			case authed && !valid:
+				viol("authenticated-without-verified-login/"+stateKind+"/"+code, what+"; user in token: "+fmt.Sprint(tokenClaims(rdpValue(file, "gatewayaccesstoken"))["sub"]))
+			case valid && !authed:
+				viol("valid-login-not-completed", what+" "+tail(body, 200))
+			case valid:
+				want := "user-" + strings.TrimPrefix(code, "ok:")
+				if got := tokenClaims(rdpValue(file, "gatewayaccesstoken"))["sub"]; got != want {
+					viol("verified-login-wrong-user", fmt.Sprintf("%s: token for %v, ID token names %s", what, got, want))
+				}
+			}
+			// the other browser never becomes authenticated
+			if c3, _, f3 := B.get("/connect"); c3 == 200 && strings.Contains(f3, "gatewayaccesstoken") {
+				viol("other-browser-became-authenticated", what)
+			}
+		}
+		for _, sk := range []string{"own", "other", "never"} {
+			for _, code := range c13Codes {
+				run(sk, code, 0)
+			}
+		}
+		if env.thorough() {
+			run("own", "ok:preferred_username", 125*time.Second)
+		}
+		if cr := b.g.Crashed(); cr != "" {
+			viol("panic", cr)
+		}
+		b.stop()
+	}
+	return n
 }
